@@ -135,7 +135,7 @@ class Check:
 
 
 def merge_stats(stats_list):
-    out = dict(states=0, transitions=0, max_depth=0, abstraction_checks=0, replays_validated=0, caps_hit=[],
+    out = dict(states=0, transitions=0, max_depth=0, abstraction_checks=0, replays_validated=0, continuous_validated=0, caps_hit=[],
                completed=True)
     for s in stats_list:
         out['states'] += s['states']
@@ -143,6 +143,7 @@ def merge_stats(stats_list):
         out['max_depth'] = max(out['max_depth'], s['max_depth'])
         out['abstraction_checks'] += s['abstraction_checks']
         out['replays_validated'] += s['replays_validated']
+        out['continuous_validated'] += s.get('continuous_validated', 0)
         out['caps_hit'] += ['%s:%s' % (s.get('label', ''), c) for c in s['caps_hit']]
         out['completed'] = out['completed'] and s['completed']
     return out
